@@ -295,18 +295,28 @@ class Unit:
                 self.strict_specs.add(k)
 
     # ---- items ------------------------------------------------------------
+    KEEP_DERIVES = {"Default"}
+
     def _strip_attrs_edits(self, src, s, e):
         eds = []
         for a in src.attrs_in(s, e):
             if a["name"].split("::")[-1] in self.E1_DROP:
                 a0, a1 = a["span"]
-                # swallow trailing whitespace/newline
-                while a1 < e and src.data[a1:a1 + 1] in (b" ", b"\t"):
-                    a1 += 1
-                if src.data[a1:a1 + 1] == b"\n":
-                    a1 += 1
-                eds.append((a0, a1, "", None))
-                self._log("E1", src, a0, src.text(a["span"][0], a["span"][1]), "")
+                txt = src.text(a0, a1)
+                repl = ""
+                if a["name"] == "derive":
+                    names = [x.strip() for x in txt[txt.index("(") + 1:txt.rindex(")")].split(",")]
+                    keep = [x for x in names if x in self.KEEP_DERIVES]
+                    if keep:
+                        repl = "#[derive(" + ", ".join(keep) + ")]"
+                if not repl:
+                    # swallow trailing whitespace/newline
+                    while a1 < e and src.data[a1:a1 + 1] in (b" ", b"\t"):
+                        a1 += 1
+                    if src.data[a1:a1 + 1] == b"\n":
+                        a1 += 1
+                eds.append((a0, a1, repl, None))
+                self._log("E1", src, a0, txt, repl)
             else:
                 raise Undecided(f"attribute #[{a['name']}] at {src.rel}:{src.line_of(a['span'][0])} is outside the E1 catalogue")
         return eds
